@@ -7,6 +7,14 @@ from . import sym, structural as st
 from .values import *
 
 
+class OrderTainted:
+    """list(d.items()) / tuple(d.items()) of a dict whose insertion order is not determined by
+    its content: the value depends on a ghost permutation of the dict object."""
+    def __init__(self, d, order):
+        self.d = d
+        self.order = order
+
+
 class SortedItems:
     """sorted(d.items()) for a dict with distinct string keys: a canonical function of the
     item *set* (independent of insertion order)."""
@@ -54,7 +62,11 @@ def hash_term(I, v):
         return st.hash_tuple(len(hs))(*hs)
     if isinstance(v, SortedItems):
         present, vals = items_arrays(I, v.d)
-        return st.hash_items(present, masked(present, vals))
+        return st.hash_items(present, vals)
+    if isinstance(v, OrderTainted):
+        present, vals = items_arrays(I, v.d)
+        f = z3.Function("hash_ordered_items", sym.NameSet, z3.ArraySort(sym.Name, z3.RealSort()), z3.IntSort(), z3.IntSort())
+        return f(present, vals, v.order)
     if isinstance(v, str):
         t = sym.literal_name(v)
         return st.hash_name(t)
